@@ -172,6 +172,8 @@ func runCase(t *testing.T, c *caseJ) {
 			in = newOnce()
 		case "fresh":
 			in = newScripted(false)
+		case "resultstore":
+			in = newRS()
 		default:
 			in = newScripted(true)
 		}
@@ -270,8 +272,19 @@ var kinds = []string{"once", "fresh", "sticky"}
 func boundaryCases() []caseJ {
 	var cs []caseJ
 	settle := ph(true, true)
-	for _, k := range kinds {
-		add := func(fam string, phs ...phaseJ) { cs = append(cs, caseJ{Family: fam, Kind: k, Phases: phs}) }
+	for _, k := range append(append([]string{}, kinds...), "resultstore") {
+		add := func(fam string, phs ...phaseJ) {
+			if k == "resultstore" {
+				for _, p := range phs {
+					for _, a := range p.Acts {
+						if a == "panic" || a == "ret" {
+							return // the real store has no hook for either
+						}
+					}
+				}
+			}
+			cs = append(cs, caseJ{Family: fam, Kind: k, Phases: phs})
+		}
 		add("clean", ph(true, false, "start"), ph(true, false, "call"), settle)
 		add("start-only", ph(true, false, "start"), settle)
 		add("close-before-start", ph(true, false, "call"), ph(true, false, "start"), settle)
@@ -334,7 +347,7 @@ func boundaryCases() []caseJ {
 }
 
 func randomCase(r *Rng) caseJ {
-	c := caseJ{Family: "random", Kind: kinds[r.Intn(3)]}
+	c := caseJ{Family: "random", Kind: append(append([]string{}, kinds...), "resultstore")[r.Intn(4)]}
 	n := r.Range(1, 4)
 	started, called, panics := false, false, 0
 	for i := 0; i < n; i++ {
@@ -343,11 +356,11 @@ func randomCase(r *Rng) caseJ {
 			p.Acts = append(p.Acts, "start")
 			started = true
 		}
-		if panics < 2 && r.Chance(1, 3) {
+		if c.Kind != "resultstore" && panics < 2 && r.Chance(1, 3) {
 			p.Acts = append(p.Acts, "panic")
 			panics++
 		}
-		if c.Kind != "once" && r.Chance(1, 6) {
+		if c.Kind != "once" && c.Kind != "resultstore" && r.Chance(1, 6) {
 			p.Acts = append(p.Acts, "ret")
 		}
 		if !called && r.Chance(1, 3) {
@@ -371,7 +384,7 @@ func randomCase(r *Rng) caseJ {
 }
 
 func coqKind(k string) string {
-	return map[string]string{"once": "KOnce", "fresh": "KFresh", "sticky": "KSticky"}[k]
+	return map[string]string{"once": "KOnce", "fresh": "KFresh", "sticky": "KSticky", "resultstore": "KSticky"}[k]
 }
 func coqAct(a string) string {
 	return map[string]string{"start": "AStart", "call": "ACall", "panic": "APanic", "ret": "ARet"}[a]
